@@ -868,6 +868,9 @@ func createAssociationFromConfigWithTsn(cfg *Config, tsn uint32) *Association {
 
 	assoc.rack.rackReoWndFloor = cfg.rack.rackReoWndFloor // optional floor; usually 0
 	assoc.rackKeepInflatedRecoveries = 0
+	// Nothing has been delivered yet: start the reordering high-watermark just
+	// below the first TSN so that serial-number comparison works for any initial TSN.
+	assoc.rackHighestDeliveredOrigTSN = tsn - 1
 
 	if assoc.name == "" {
 		assoc.name = fmt.Sprintf("%p", assoc)
